@@ -1523,3 +1523,166 @@ pub fn run_mkey(params: &Params) -> String {
         Ok(Ok(())) => format!("mkey ok {}", tail),
     }
 }
+
+// ---------- directed witness: multi-key EVAL across the PreCheck -> PreSwitch boundary (known finding with active redirection) ----------
+pub fn run_race(params: &Params) -> String {
+    use crate::net::Gate;
+    let kind = params.str("kind", "getall");
+    let conns = params.u64("conns", 1).max(1).min(8) as usize;
+    let active = params.u64("active", 1) != 0;
+    let out = params.str("out", "");
+    let timeout_ms = params.u64("timeout_ms", 60_000);
+    if out.is_empty() {
+        return "race setup-error missing-out".to_string();
+    }
+    let topo = Topo {
+        lo: 0,
+        hi: 8191,
+        scan_count: params.u64("scan_count", 10).max(1),
+        scan_interval: params.u64("scan_interval", 500),
+        parts: 1,
+        ndst: 1,
+    };
+    let tag = gen_mk_tags(&topo, 1).remove(0);
+    let ka = set_key(&tag, "a");
+    let kb = set_key(&tag, "b");
+    let pool = build_pool(&topo, 6, 0, false);
+    let mut inkeys = vec![ka.clone(), kb.clone()];
+    inkeys.extend(pool.in_str.iter().cloned());
+    let meta = meta_json(0, params, &topo, &inkeys, &[], &[]);
+    let world = World::new(0, 0, false, params.u64("buckets", crate::store::DEFAULT_SCAN_BUCKETS), None);
+    let max = Duration::from_secs(15);
+    let g_pre = Gate::new(0, 10 + 1, "PRECHECK", vec![], max); // request P1 -> P2
+    let g_reply = Gate::new(1, 20 + 0, "EXISTS", kb.clone(), max); // reply of P2 -> P1 (UMFORWARD .. EXISTS kb)
+    let g_scan = Gate::new(0, 0, "SCAN", vec![], max);
+    {
+        let mut g = world.gates.lock();
+        g.push(g_pre.clone());
+        g.push(g_reply.clone());
+        g.push(g_scan.clone());
+    }
+    let sh = Shared::new();
+    let rt = new_runtime();
+    let result: Arc<parking_lot::Mutex<Vec<String>>> = Arc::new(parking_lot::Mutex::new(vec!["-".into(), "-".into(), "-".into()]));
+
+    let scenario = {
+        let world = world.clone();
+        let sh = sh.clone();
+        let result = result.clone();
+        let inkeys = inkeys.clone();
+        let (g_pre, g_reply, g_scan) = (g_pre.clone(), g_reply.clone(), g_scan.clone());
+        let (ka, kb) = (ka.clone(), kb.clone());
+        let kind = kind.clone();
+        async move {
+            new_proxy(&world, 0, conns, active);
+            new_proxy(&world, 1, conns, active);
+            for p in 0..2 {
+                let r = deliver_logged(&world, &topo, p, 1).await;
+                if r != "S 4f4b" {
+                    return Err(format!("epoch1-{}-{}", PROXY_NAME[p], r.replace(' ', "_")));
+                }
+            }
+            for k in inkeys.iter() {
+                let mut v = b"init-".to_vec();
+                v.extend_from_slice(k);
+                preload(&world, vec![b("SET"), k.clone(), v]);
+            }
+            let poll = tokio::spawn(poller(world.clone(), sh.clone()));
+            sh.epoch2_delivered.store(true, Ordering::SeqCst);
+            for p in [1usize, 0usize] {
+                let r = deliver_logged(&world, &topo, p, 2).await;
+                if r != "S 4f4b" {
+                    return Err(format!("epoch2-{}-{}", PROXY_NAME[p], r.replace(' ', "_")));
+                }
+            }
+            let wait_for = |g: Arc<Gate>, ms: u64| async move {
+                let start = std::time::Instant::now();
+                while !g.holding.load(Ordering::SeqCst) && start.elapsed() < Duration::from_millis(ms) {
+                    tokio::time::sleep(Duration::from_millis(1)).await;
+                }
+                g.holding.load(Ordering::SeqCst)
+            };
+            // both sides in PreCheck
+            wait_for(g_pre.clone(), 10_000).await;
+            let verb = if kind == "delall" { "DELALL" } else { "GETALL" };
+            let cmd = vec![b("EVAL"), b(&format!("{}:race", verb)), b("2"), ka.clone(), kb.clone()];
+            let mut task = {
+                let world = world.clone();
+                let sh = sh.clone();
+                tokio::spawn(async move { client_op(&world, &sh, 1, cmd, 1, Duration::from_secs(30)).await })
+            };
+            // with active redirection the EXISTS of the last key has been answered by the SOURCE; its reply is on the way back
+            let redirected = wait_for(g_reply.clone(), 2_000).await;
+            // the handshake runs: PreBlocking, PreSwitch, PRESWITCH, Scanning (scanner held: every key is still on the source)
+            g_pre.release();
+            if redirected {
+                wait_for(g_scan.clone(), 10_000).await;
+            }
+            g_reply.release();
+            let reply = match tokio::time::timeout(Duration::from_secs(20), &mut task).await {
+                Ok(r) => r.ok(),
+                Err(_) => None,
+            };
+            result.lock()[0] = match reply {
+                Some((r, _)) => resp_to_string(&r),
+                None => "none".to_string(),
+            };
+            if !redirected {
+                wait_for(g_scan.clone(), 10_000).await;
+            }
+            let (r, _) = client_op(&world, &sh, 1, vec![b("GET"), kb.clone()], 1, Duration::from_secs(10)).await;
+            result.lock()[1] = resp_to_string(&r);
+            g_scan.release();
+            wait_switch_committed(&sh).await;
+            for p in [1usize, 0usize] {
+                deliver_logged(&world, &topo, p, 3).await;
+            }
+            sh.commit_done.store(true, Ordering::SeqCst);
+            for k in [ka.clone(), kb.clone()] {
+                let (r, _) = client_op(&world, &sh, 2, vec![b("GET"), k.clone()], 1, Duration::from_secs(10)).await;
+                if k == kb {
+                    result.lock()[2] = resp_to_string(&r);
+                }
+            }
+            tokio::time::sleep(Duration::from_millis(50)).await;
+            sh.stop_poller.store(true, Ordering::SeqCst);
+            let _ = poll.await;
+            log_final(&world);
+            Ok(())
+        }
+    };
+    let res = rt.block_on(async { tokio::time::timeout(Duration::from_millis(timeout_ms), scenario).await });
+    sh.stop_poller.store(true, Ordering::SeqCst);
+    for g in [&g_pre, &g_reply, &g_scan] {
+        g.disarm();
+        g.release();
+    }
+    if !matches!(res, Ok(Ok(()))) {
+        log_final(&world);
+    }
+    let written = world.write_trace(&out, meta);
+    world.clear_handlers();
+    rt.shutdown_background();
+    if let Err(e) = written {
+        return format!("race setup-error trace-write-{}", e.replace(' ', "_"));
+    }
+    let f = |g: &Arc<Gate>| if g.was_held.load(Ordering::SeqCst) { '1' } else { '0' };
+    let r = result.lock();
+    let tail = format!(
+        "kind={} active={} gates={}{}{} eval_reply={} read_last={} final_last={} trace={}",
+        kind,
+        if active { 1 } else { 0 },
+        f(&g_pre),
+        f(&g_reply),
+        f(&g_scan),
+        r[0].replace(' ', "_"),
+        r[1].replace(' ', "_"),
+        r[2].replace(' ', "_"),
+        out
+    );
+    match res {
+        Err(_) => format!("race timeout {}", tail),
+        Ok(Err(msg)) => format!("race setup-error {} {}", msg, tail),
+        Ok(Ok(())) => format!("race ok {}", tail),
+    }
+}
